@@ -1,7 +1,7 @@
 (** Properties/C06.v — "Encrypted documents yield their plaintext with either password, and only then".
     Only statements, each closed by [exact] of a lemma proved in Crypt/*Proofs.v.  MD5, SHA-2, AES-CBC and SASLprep
     are universally quantified functions; what a theorem needs of them is an explicit premise. *)
-From PdfV Require Import Base.Prelude Gen.Generated Crypt.Rc4 Crypt.Rc4Proofs Crypt.Model Crypt.Spec Crypt.Tables Crypt.Proofs Crypt.KdfProofs Crypt.Proofs56 Crypt.SafeProofs.
+From PdfV Require Import Base.Prelude Gen.Generated Crypt.Rc4 Crypt.Rc4Proofs Crypt.Rc4Spec Crypt.Model Crypt.Spec Crypt.Tables Crypt.Proofs Crypt.KdfProofs Crypt.Proofs56 Crypt.SafeProofs.
 
 (** the full statement: for every variant, passwords, P, id, EncryptMetadata, crypt filters named by /StmF (streams) and /StrF
     (strings) independently of each other — Identity, RC4, AES-128, AES-256 —, object and generation numbers and contents:
@@ -26,6 +26,12 @@ Print Assumptions C06_rc4_involution.
 Theorem C06_rc4_bad_key : forall k m, lenN k = 0 \/ 256 < lenN k -> rc4 k m = Panic 601.
 Proof. exact rc4_bad_key_panics. Qed.
 Print Assumptions C06_rc4_bad_key.
+
+(** the crate's Rc4 (state as a 256-entry array, u8 wrapping arithmetic) computes RC4 as published (KSA / PRGA over a
+    permutation given as a function, arithmetic modulo 256): for every key of 1..256 bytes and every message *)
+Theorem C06_rc4_is_rc4 : forall k m, 1 <= lenN k <= 256 -> rc4 k m = Ok (rc4_spec k m).
+Proof. exact rc4_is_spec. Qed.
+Print Assumptions C06_rc4_is_rc4.
 
 (** PKCS#7 unpadding (block-padding, strict) inverts the standard padding for every length incl. 0 and multiples of 16 *)
 Theorem C06_pkcs7 : forall m, pkcs7_unpad (pkcs7_pad m) = Some m.
